@@ -1084,7 +1084,6 @@ impl Part for EndToEnd {
                     ),
                 )
             })
-            .prop_filter("a run with no draws at all is not a run", |(_, _, _, (t, d, ..), _)| t + d > 0)
             .prop_map(|(preset, dens, center, (num_tune, num_draws, seed, num_chains, cores, maxdepth), (b, chunk, store_warmup, precision, abort_after, delay_seed))| {
                 let mut spec = ChainSpec::defaults(preset);
                 spec.num_tune = num_tune;
